@@ -121,12 +121,42 @@ def implKey (toks : List String) : Option (Bytes × Bool) :=
 /-- "1 second of traffic, minimum 64KB, capped at 10MB" -/
 def defaultBurstSpec (bps : Nat) : Nat := min (max (bps / 8) 65536) (10 * 1024 * 1024)
 
-/-- what the entry of direction `d` must carry under policy `p`: rate, burst, priority.
-    (The upload direction has no configurable burst in the manager's API: it always gets the default.) -/
+/-- what the entry of direction `d` must carry under policy `p`: rate, burst (the policy's, or the default rule
+    for that direction's rate when it is 0), priority -/
 def expected (d : Dir) (p : Pol) : Nat × Nat × Nat :=
   match d with
   | .egress => (p.down, if p.burst ≠ 0 then p.burst else defaultBurstSpec p.down, p.prio)
-  | .ingress => (p.up, defaultBurstSpec p.up, p.prio)
+  | .ingress => (p.up, if p.burst ≠ 0 then p.burst else defaultBurstSpec p.up, p.prio)
+
+/-- Where the IP header really is: strip up to two VLAN tags (0x8100, 0x88a8, 0x9100, 0x9200) and a PPPoE session
+    header.  Returns (encapsulated?, ethertype of the payload, offset of the payload). -/
+def l3 (frame : Bytes) : Bool × Bytes × Nat :=
+  let et := fun (off : Nat) => (frame.drop off).take 2
+  let isTag := fun (e : Bytes) => e = [0x81, 0x00] ∨ e = [0x88, 0xa8] ∨ e = [0x91, 0x00] ∨ e = [0x92, 0x00]
+  let (tagged, off) : Bool × Nat :=
+    if isTag (et 12) then (if isTag (et 16) then (true, 20) else (true, 16)) else (false, 12)
+  if et off = [0x88, 0x64] then
+    let ppp := et (off + 8)
+    let inner : Bytes := if ppp = [0x00, 0x21] then [0x08, 0x00] else if ppp = [0x00, 0x57] then [0x86, 0xdd] else ppp
+    (true, inner, off + 10)
+  else (tagged, et off, off + 2)
+
+/-- `policy` verdicts for frames the program does not classify (finding KF-qos-unclassified): an encapsulated IPv4
+    frame of a subscriber with a policy, or any IPv6 frame while policies are installed, passed without a lookup -/
+def unclassified (st : St) (d : Dir) (frame : Bytes) (ik : Option (Bytes × Bool)) (ret : Nat) :
+    List (String × String × String) :=
+  if frame.length < 14 ∨ ik.isSome ∨ ret ≠ TC_ACT_OK then [] else
+  let (enc, et, off) := l3 frame
+  if et = [0x08, 0x00] ∧ enc ∧ frame.length ≥ off + 20 then
+    let ip := match d with
+      | .egress => (frame.drop (off + 16)).take 4
+      | .ingress => (frame.drop (off + 12)).take 4
+    if (AMap.lookup st.sApplied ip).isSome then
+      [("policy", "KF-qos-unclassified", s!"encapsulated IPv4 frame of {hex ip} (policy applied) passed without any lookup")]
+    else []
+  else if et = [0x86, 0xdd] ∧ frame.length ≥ off + 40 ∧ !st.sApplied.isEmpty then
+    [("policy", "KF-qos-unclassified", "IPv6 frame passed without any lookup although policies are installed (IPv6 is never rate limited)")]
+  else []
 
 /-- compare the configuration carried by reported entry `(d, k)` with the policy applied to `ip` -/
 def checkEntry (st : St) (d : Dir) (ip k : Bytes) (p : Pol) (what : String) : List (String × String × String) :=
@@ -193,6 +223,7 @@ def observePkt (st : St) (d : Dir) (frame : Bytes) (len : Nat) (ik : Option (Byt
           [("policy", "none", s!"packet of {hex ip} (no policy applied) is judged by the control-plane entry {hex k} written for {hex owner}")]
         | _ => []
       | none, _ => []
+  let polV := polV ++ unclassified st d frame ik ret
   -- bucket monitors: the entry the program used
   match ik with
   | some (k, true) =>
